@@ -9,21 +9,57 @@ from harness.project import project
 ENTRY = {0: 'expression', 26: 'predicate', 30: 'property'}
 
 
-def languages(thorough):
-    L = []
-    # all operators, few atoms (precedence / associativity / operand order)
-    L.append(('expr_ops', dict(Start=0, MaxTok=6 if thorough else 5, Bools=['True'], Strs=[], Consts=[], Fields=[],
-                               CallFuns=[], SetLens=[], RangeL=[], RangeR=[], Quants=[], Vars=[])))
-    # all atom kinds and compound values, few operators
-    L.append(('expr_atoms', dict(Start=0, MaxTok=6 if thorough else 5, IfOps=['implies'], OrOps=[], AndOps=['and'],
-                                 RelOps=['=', 'in'], AddOps=['-'], MulOps=[], PowOps=['**'], Nums=['1', '1.5'],
-                                 Consts=['PI', 'INF'], Parens=False)))
-    L.append(('pred', dict(Start=26, MaxTok=9 if thorough else 8, Quants=['forall'], IfOps=['iff'], OrOps=['or'], AndOps=[],
-                           RelOps=['<'], AddOps=['+'], MulOps=['/'], PowOps=[], NegOps=[], Strs=[], Consts=[],
-                           RangeL=['['], RangeR=[']!'], CallFuns=['len'], SetLens=[1], Fields=[])))
-    L.append(('prop', dict(Start=30, MaxTok=11 if thorough else 10, PredPool='SmallPool', Channels=['t', 'u'],
-                           Times=['100'], DisjLens=[2] if not thorough else [2, 3])))
-    return L
+from harness.corpus import languages  # the enumerated languages are shared with the corpus
+
+
+NAME_POOL = ['nothing', 'note', 'order', 'android', 'inner', 'tor', 'asx', 'forall_x', 'existsx', 'PIN', 'Ex', 'E1', 'INFO',
+             'NANO', 'Trueish', 'within1', 'nosy', 'untilx', 'iffy', 'insert', 'total', 'some1', 'causesx', 'globally_',
+             'afterwards', 'Falsehood', 'implies_', 'a1', '_x', 'tomorrow', 'inf', 'pi', 'no_', 'requires2', 'ms', 's', 'hz']
+CHAN_POOL = ['/cmd_vel', 'nothing', 'ns/topic_1', '~private', 'after_x', 'orbit', 'some_topic', 'untilted', 'no_go', 'E', 'PI']
+NUM_POOL = ['0', '2', '10', '1.5', '0.5', '.5', '1e3', '3.25', '100', '1.0', '7']
+
+# reduced, class-closed alphabet for the accept/reject (set complement) side
+REJ_SIGMA = ['a', '@v', '1', 'True', 'not', 'and', '=', '<', '+', '-', '(', ')', '{', '}', '[', ']', 'to', 'in', 'forall', ':', ',', '.', 'abs', '**']
+REJ_KEYWORDS = ['not', 'and', 'to', 'in', 'forall', 'True']
+
+
+def rej_params(start, maxtok):
+    return dict(Start=start, MaxTok=maxtok, IfOps=[], OrOps=[], AndOps=['and'], NotOps=['not'], Quants=['forall'], RelOps=['=', '<', 'in'],
+                AddOps=['+', '-'], MulOps=[], PowOps=['**'], NegOps=['-'], Parens=True, Bools=['True'], Strs=[], Nums=['1'], Consts=[],
+                CallFuns=['abs'], SetLens=[1, 2], RangeL=['['], RangeR=[']'], Names=['a'], Vars=['@v'], Fields=['a'], QVars=['a'])
+
+
+def permissive_member(toks, lang):
+    """Is some reading of toks in the bounded language?  Keyword tokens may also be read as names;
+    every CNAME-class token (a, abs, a keyword read as a name) is a function name directly before
+    "(" and an ordinary name elsewhere (the language is enumerated with exactly these two)."""
+    idx = [i for i, t in enumerate(toks) if t in REJ_KEYWORDS]
+    for mask in range(1 << len(idx)):
+        s = list(toks)
+        for j, i in enumerate(idx):
+            if mask >> j & 1:
+                s[i] = 'a'
+        s = [('abs' if (i + 1 < len(s) and s[i + 1] == '(') else 'a') if t in ('a', 'abs') else t for i, t in enumerate(s)]
+        if tuple(s) in lang:
+            return True
+    return False
+
+
+def mutants(sentences, sigma, maxlen):
+    out = set()
+    for s in sentences:
+        n = len(s)
+        for i in range(n):
+            out.add(s[:i] + s[i + 1:])
+            for t in sigma:
+                if t != s[i]:
+                    out.add(s[:i] + (t,) + s[i + 1:])
+        if n < maxlen:
+            for i in range(n + 1):
+                for t in sigma:
+                    out.add(s[:i] + (t,) + s[i:])
+    out.discard(())
+    return out
 
 
 def run(replay=None):
@@ -40,7 +76,19 @@ def run(replay=None):
         entry = ENTRY[params['Start']]
         for s in sents:
             sid += 1
-            toks, exp = render.substitute(s, lits=grammar.STD_LITS)
+            # placeholders -> names that merely begin with a keyword, alternative number spellings, channel names
+            names = {k: rnd.choice(NAME_POOL) for k in ('a', 'f', 'x', 'A') if rnd.random() < 0.5}
+            chans = {k: rnd.choice(CHAN_POOL) for k in ('t', 'u') if rnd.random() < 0.5}
+            if chans.get('t') is not None and chans.get('t') == chans.get('u'):
+                chans.pop('u')
+            lits = dict(grammar.STD_LITS)
+            if rnd.random() < 0.4:
+                sp = rnd.choice(NUM_POOL)
+                from fractions import Fraction
+                fr = Fraction(sp)
+                lits['1'] = (sp, ['n', fr.numerator, fr.denominator])
+            toks, exp = render.substitute(s, names=names, chans=chans, lits=lits)
+            exp = grammar.fix_var_names(exp)
             texts = [render.layout(toks, 0), render.layout(toks, 1, rnd)]
             if thorough:
                 texts.append(render.layout(toks, 2))
@@ -53,6 +101,33 @@ def run(replay=None):
                 events.append(ev)
                 byid[eid] = (text, which, toks)
                 rep.clause('out:' + out)
+    # ---- reject side: token mutants outside the permissive bounded language (set complement)
+    L = 5 if thorough else 4
+    for start, entry in ((0, 'expression'), (26, 'predicate')):
+        sents, r = grammar.enumerate_language(rej_params(start, L + (2 if start == 26 else 0)))
+        rep.add_tlc(r)
+        lang = {tuple(x['toks']) for x in sents}
+        base = [t for t in lang if len(t) <= L - 1 + (2 if start == 26 else 0)]
+        cands = mutants(base, REJ_SIGMA, L + (2 if start == 26 else 0)) - lang
+        cands = sorted(cands)
+        if len(cands) > (200000 if thorough else 25000):
+            cands = rnd.sample(cands, 200000 if thorough else 25000)
+        nrej = nuns = 0
+        for toks in cands:
+            if permissive_member(list(toks), lang):
+                nuns += 1
+                continue
+            nrej += 1
+            sid += 1
+            text = ' '.join(toks)
+            out, obj = call_parser(entry, text, 'pkg')
+            eid += 1
+            events.append({'id': eid, 'sid': sid, 'kind': 'reject', 'entry': entry, 'expected': {'cls': 'None'}, 'out': out,
+                           'observed': project(obj, ids=False) if out == 'ast' else {'cls': 'None'}})
+            byid[eid] = (text, 'pkg', list(toks))
+            rep.clause('reject:' + out)
+        rep.count('mutants_must_reject_' + entry, nrej)
+        rep.count('mutants_unspecified_' + entry, nuns)
     # canaries: corrupted recordings that the trace spec must reject
     canaries = []
     for ev in events:
